@@ -18,6 +18,8 @@ def build_server(features=None, tag="server"):
         cmd += ["--features", ",".join(features)]
     env = dict(os.environ)
     env.update({"CARGO_TARGET_DIR": tdir, "CARGO_NET_OFFLINE": "true", "RUSTFLAGS": "--cfg adf_obdd_verif"})
+    import srcguard
+    srcguard.source_guard(tdir, ["adf_bdd", "adf-bdd-server"], REPO, {"RUSTFLAGS": "--cfg adf_obdd_verif"})
     p = subprocess.run(cmd, cwd=REPO, env=env, stdout=subprocess.PIPE, stderr=subprocess.STDOUT, text=True, timeout=3000)
     if p.returncode != 0:
         return None, p.stdout[-3000:]
